@@ -49,9 +49,10 @@ func (d *dialer) Dial() (transport.Pipe, error) {
 	d.lock.Lock()
 	config := d.config
 	maxRecvSize := d.maxRecvSize
+	nd := *d.d
 	d.lock.Unlock()
 
-	conn, err := tls.DialWithDialer(d.d, "tcp", d.addr, config)
+	conn, err := tls.DialWithDialer(&nd, "tcp", d.addr, config)
 	if err != nil {
 		return nil, err
 	}
@@ -63,6 +64,8 @@ func (d *dialer) Dial() (transport.Pipe, error) {
 }
 
 func (d *dialer) SetOption(n string, v interface{}) error {
+	d.lock.Lock()
+	defer d.lock.Unlock()
 	switch n {
 	case mangos.OptionMaxRecvSize:
 		if b, ok := v.(int); ok && b >= 0 {
